@@ -12,6 +12,8 @@ mod c15w;
 mod c16;
 mod c16w;
 mod c17;
+mod c17e;
+mod c18s;
 mod c19;
 mod common;
 mod corpus;
@@ -90,6 +92,8 @@ fn main() {
                 "c06_std" => ("C06", c06s::part_std(tier, false)),
                 "c08_exec" => ("C08", c08::part_exec(tier)),
                 "c16_vard" => ("C16", c06s::part_vard(tier)),
+                "c18_shlib" => ("C18", c18s::part_shlib(tier)),
+                "c17_names" => ("C17", c17e::part_names(tier)),
                 "c07_std" => ("C07", c06s::part_std(tier, true)),
                 "c09_real" => ("C09", mt::part_c09_real(tier)),
                 "c14_threads" => ("C14", mt::part_c14_threads(tier)),
@@ -249,11 +253,13 @@ fn run_check(id: &str, tier: Tier) -> i32 {
         "C18" => {
             let mut r = Report::new("C18", tier, "model_checking");
             r.parts.push(c01::part_c18(tier));
+            r.parts.push(c18s::part_shlib(tier));
             finish(r)
         }
         "C17" => {
             let mut r = Report::new("C17", tier, "model_checking");
             r.parts.push(c17::part_index(tier));
+            r.parts.push(c17e::part_names(tier));
             finish(r)
         }
         _ => {
